@@ -51,6 +51,17 @@ def small_specs(ctx, n):
                 rows_ok = False
             if rows_ok:
                 specs.append(mk_pair(len(specs), "degenerate-stochastic", m, mm, label="small"))
+    # affine pairs on models whose utility is INTEGER-TYPED (discrete-only, integer tables, no own parameter, no auxiliary function
+    # with a parameter) while beta is not an integer; the transformed utility is integer-typed for integer a, b and float otherwise
+    r2 = ctx.rng("integer-utility")
+    for j in range(max(3, n // 16)):
+        m = gen.rand_model(r2, {**SMALL, "T": [2, 3], "p_w": 0.0, "p_z": 0.0, "p_h": 1.0, "p_two_params": 0.0, "p_param_only_aux": 0.0,
+                                "p_reduction_aux": 0.0, "p_near_tie": 0.0, "p_undefined_outside": 0.0, "p_beta_outside": 0.0,
+                                "betas": [F(1, 2), F(3, 4), F(1, 4)]})
+        mm, a, b = laws.affine(r2, m)
+        while b == 0 or (j % 2 == 0 and (a.denominator != 1 or b.denominator != 1)):     # even j: integer a and b
+            mm, a, b = laws.affine(r2, m)
+        specs.append(mk_pair(len(specs), "affine", m, mm, a=a, b=b, label="small; integer-typed utility"))
     return specs
 
 
